@@ -166,14 +166,18 @@ def ispec(e, nested=False):
         # outside the claim: an exponent that is a known zero but carries a dimension (0 m): the statement's zero exception
         # names sums/min/max only, the library treats a zero product as a plain number
         ISPEC_ASSUME.append(z3.Or(z3.Not(x.anyf), vec_zero(x.dim)))
+        for q_ in sp.sympify(e.exp).atoms(SymQuantity):
+            # ... nor zero-valued dimensional quantities anywhere inside an exponent
+            ISPEC_ASSUME.append(z3.Or(S().z(q_.scale_factor) != 0, vec_zero(to_vec(q_.dimension))))
         # the statement excepts zero terms only for sums/min/max: an exponent must be dimensionless, full stop
         return ISem([c * xv for c in b.dim], z3.And(b.wf, x.wf, vec_zero(x.dim)), F)
     if isinstance(e, (sp.Add, MinMaxBase)):
         ts = [ispec(a, True) for a in e.args]
         anyf = z3.And([t.anyf for t in ts])
-        if nested and pure_number(_value(e)) and not isinstance(e, MinMaxBase):
-            # outside the claim: a nested numeric sum that cancels to zero without all of its terms being zero
-            ISPEC_ASSUME.append(z3.Or(S().z(_value(e)) != 0, anyf))
+        if nested and not e.free_symbols - {a for a in e.free_symbols if isinstance(a, lift.VS)}:
+            # outside the claim: a nested sum / min / max of numbers and quantities whose VALUE is zero (the statement's zero exception is about
+            # terms that are zero; whether an aggregate that merely evaluates to zero counts is not determined by it)
+            ISPEC_ASSUME.append(S().z(_value(e)) != 0)
         return ISem(_ipick(ts), z3.And([t.wf for t in ts] + [_icompat(ts)]), anyf)
     if isinstance(e, sp.Abs):
         t = ispec(e.args[0], nested)
